@@ -11,6 +11,9 @@ COMP = "robotools/liquidhandling/composition.py"
 UT = "robotools/utils.py"
 
 MUTANTS = [
+    dict(id="condense-plus-one", expect=["C11"], edits=[(EVW, "            source.condense_log(nsteps, label=label)", "            source.condense_log(nsteps + 1, label=label)")]),
+    dict(id="volumes-live-array", expect=["C11"], edits=[(LW, "        return self._volumes.copy()", "        return self._volumes")]),
+    dict(id="fluent-exec-zero-steps", expect=["C11"], edits=[(FLW, "                        if v > 0:", "                        if v >= 0:")]),
     dict(id="evo-kwargs-not-forwarded", expect=["C07"], edits=[(EVW, """                                compositions=[source.get_well_composition(s)],
                                 **kwargs,
                             )""", """                                compositions=[source.get_well_composition(s)],
@@ -24,7 +27,6 @@ MUTANTS = [
             raise ValueError("Volumes must be positive or zero.")
 """, """        volumes = np.array([abs(v) for v in volumes])
 """)]),
-    dict(id="partition-sort-independent", expect=["C07"], edits=[(WU, """            list(numpy.array(dsts)[order]),""", """            list(numpy.array(dsts)[numpy.argsort(dsts)]),""")]),
     dict(id="fluent-split-950", expect=["C06"], edits=[(FLW, "partition_volume(float(v), max_volume=self.max_volume) if self.auto_split else [v]", "partition_volume(float(v), max_volume=950) if self.auto_split else [v]")]),
     dict(id="multidisp-round", expect=["C06"], edits=[(BASE, "multi_disp = math.floor(self.max_volume / volume)", "multi_disp = round(self.max_volume / volume)")]),
     dict(id="partition-le", expect=[], silent=["C06"], edits=[(WU, "    if volume < max_volume:\n        return [volume]", "    if volume <= max_volume:\n        return [volume]")]),
